@@ -194,6 +194,15 @@ Fixpoint multi_mode_dot_from (k : nat) (T : tensor F) (Ms : list (tensor F)) (sk
   end.
 Definition tucker_to_tensor (core : tensor F) (fs : list (tensor F)) (skip : option nat) (tr : bool) :=
   multi_mode_dot_from 0 core fs skip tr.
+(* tucker_to_tensor((core, factors), modes=ms): factor j is multiplied along mode ms[j] (matrix operands; zip truncates to the shorter
+   list; both backends: the core backend sorts by mode and applies mode_dot one after the other, the einsum backend contracts all at
+   once -- for pairwise distinct modes every product sees the core's own size along its mode, so one fold describes both) *)
+Fixpoint multi_mode_dot_modes (T : tensor F) (Ms : list (tensor F)) (ms : list nat) : res (tensor F) :=
+  match Ms, ms with
+  | M :: Ms', m :: ms' => if negb (ndim M =? 2) then Err else rbind (mode_dot T M m) (fun T' => multi_mode_dot_modes T' Ms' ms')
+  | _, _ => Ok T
+  end.
+Definition tucker_to_tensor_modes (core : tensor F) (fs : list (tensor F)) (ms : list nat) := multi_mode_dot_modes core fs ms.
 Definition tucker_to_unfolded core fs (mode : nat) skip tr :=
   rbind (tucker_to_tensor core fs skip tr) (fun t => unfold zero t mode).
 Definition tucker_to_vec core fs skip tr := rbind (tucker_to_tensor core fs skip tr) tensor_to_vec.
